@@ -9,6 +9,10 @@ from core import Prop, q, qv, qm, cbool, cnat, dyad
 
 def cloud(rng, d, kind):
     npts = rng.randint(d + 2, d + 7)
+    if kind == "sharp":          # few vertices, sharp corners
+        npts = rng.randint(d + 1, d + 3)
+    elif kind == "big":          # many facets (hundreds in 4-5 dimensions)
+        npts = rng.randint(24, 40) if d >= 4 else rng.randint(12, 30)
     if kind == "lattice":
         P = [[float(rng.randint(0, 3)) for _ in range(d)] for _ in range(npts + 4)]
         P += [[0.0] * d, [3.0] * d]
@@ -37,8 +41,8 @@ class C17(Prop):
     case_type = "Project.gcase"
     verdict = "Project.gverdict"
     shard = 40
-    rule = ("point clouds in 2-5 dimensions (random dyadic, lattice-like with many coplanar points); proj_B_to_hull on facet equations from scipy ConvexHull with query "
-            "points inside / just outside / far outside; alpha_for_B_with_P and B_with_P on centred clouds (origin strictly inside) with random directions; "
+    rule = ("point clouds in 2-5 dimensions (random dyadic, lattice-like with many coplanar points, 'sharp' clouds of d+1..d+3 points, 'big' clouds of 24-40 points with hundreds of facets); proj_B_to_hull on facet equations from scipy ConvexHull with query "
+            "points inside / just outside / far outside / beyond a vertex off the centre line / beyond an edge midpoint / random directions at 0.5-3 hull radii (ten queries per sharp hull); alpha_for_B_with_P and B_with_P on centred clouds (origin strictly inside) with random directions; "
             "proj_P_to_simplex on non-negative clouds incl. clouds with no more points than dimensions (exact all-pairs branch) for admissible plane levels c. "
             "non-trivial = outside query point (nearest), dimension >= 3, or a slice with >= 3 returned points")
     assumptions = ["quadprog and qhull are opaque: nearest points are certified by KKT multipliers (scipy NNLS, untrusted) through the weak-duality theorem; slices by "
@@ -47,7 +51,7 @@ class C17(Prop):
     modelled = "project.py: alpha_for_B_with_P, B_with_P, line_to_simplex, pair selection of yieldPpairs4proj2simplex when P.shape[0] <= P.shape[1], proj_P_to_simplex; proj_B_to_hull only through certificates"
 
     def sizes(self, tier):
-        return 180 if tier == "quick" else 3000
+        return 400 if tier == "quick" else 6000
 
     def gen(self, rng, n, tier):
         cases = []
@@ -55,6 +59,10 @@ class C17(Prop):
             op = rng.choice(["nearest", "nearest", "alpha", "slice", "slice"])
             d = rng.randint(2, 5)
             kind = rng.choice(["random", "random", "lattice"])
+            if op != "slice":
+                kind = rng.choice(["random", "lattice", "sharp", "sharp", "big"] if op == "nearest" else ["random", "lattice", "sharp", "big", "big", "big"])
+                if kind == "big" and d < 4 and (op == "alpha" or rng.random() < 0.7):
+                    d = rng.randint(4, 5)
             if op == "slice":
                 few = rng.random() < 0.35
                 if few:
@@ -78,18 +86,31 @@ class C17(Prop):
             if op == "nearest":
                 eqs = hull.equations
                 ctr = P[hull.vertices].mean(axis=0)
-                qk = rng.choice(["inside", "near", "far", "vertexdir"])
-                if qk == "inside":
-                    b = ctr + 0.25 * (P[rng.randrange(len(P))] - ctr)
-                elif qk == "near":
-                    v = P[hull.vertices[rng.randrange(len(hull.vertices))]]
-                    b = ctr + 1.125 * (v - ctr)
-                elif qk == "far":
-                    b = ctr + np.array([rng.randint(-40, 40) / 4 for _ in range(d)])
-                else:
-                    v = P[hull.vertices[rng.randrange(len(hull.vertices))]]
-                    b = v + (v - ctr) * 2
-                cases.append({"op": "nearest", "eqs": eqs.tolist(), "b": b.tolist(), "d": d, "qk": qk, "kind": "nearest/%dd/%s/%s" % (d, kind, qk)})
+                diam = float(np.max(np.linalg.norm(P - ctr, axis=1))) or 1.0
+                # sharp hulls get a fan of queries each (wrong active sets show up for a few per cent of the directions only)
+                for _ in range(10 if kind == "sharp" else 1):
+                    qk = rng.choice(["inside", "near", "far", "far", "vertexdir", "vertexoff", "edge", "randdir", "randdir", "randdir"])
+                    if qk == "inside":
+                        b = ctr + 0.25 * (P[rng.randrange(len(P))] - ctr)
+                    elif qk == "near":
+                        v = P[hull.vertices[rng.randrange(len(hull.vertices))]]
+                        b = ctr + 1.125 * (v - ctr)
+                    elif qk == "far":
+                        b = ctr + np.array([rng.randint(-40, 40) / 4 for _ in range(d)])
+                    elif qk == "randdir":        # any direction, 0.5 to 3 hull radii away from the centre
+                        u = np.array([rng.gauss(0, 1) for _ in range(d)]); u /= (np.linalg.norm(u) or 1.0)
+                        b = ctr + np.round(u * diam * rng.choice([0.5, 1.0, 1.5, 2.0, 3.0]) * 64) / 64
+                    elif qk == "vertexoff":      # beyond a vertex, off the centre line: the nearest point is on a low-dimensional face
+                        v = P[hull.vertices[rng.randrange(len(hull.vertices))]]
+                        b = v + (v - ctr) * rng.choice([0.25, 0.5, 1.0, 2.0]) + np.array([rng.randint(-8, 8) / 8 for _ in range(d)])
+                    elif qk == "edge":           # beyond the midpoint of two vertices
+                        i1, i2 = rng.randrange(len(hull.vertices)), rng.randrange(len(hull.vertices))
+                        mid = (P[hull.vertices[i1]] + P[hull.vertices[i2]]) / 2
+                        b = mid + (mid - ctr) * rng.choice([0.5, 1.0, 2.0]) + np.array([rng.randint(-4, 4) / 8 for _ in range(d)])
+                    else:
+                        v = P[hull.vertices[rng.randrange(len(hull.vertices))]]
+                        b = v + (v - ctr) * 2
+                    cases.append({"op": "nearest", "eqs": eqs.tolist(), "b": b.tolist(), "d": d, "qk": qk, "kind": "nearest/%dd/%s/%s" % (d, kind, qk)})
             else:
                 ctr = P[hull.vertices].mean(axis=0)
                 Pc = P - ctr
@@ -97,12 +118,16 @@ class C17(Prop):
                 if np.max(eqs[:, -1]) > -1e-6:
                     continue
                 b = np.array([rng.randint(-16, 16) / 8 for _ in range(d)])
-                if rng.random() < 0.2:
+                r = rng.random()
+                if r < 0.2:
                     b = Pc[rng.randrange(len(Pc))] * rng.choice([0.5, 2.0])
+                elif r < 0.6:                 # through the centroid of a facet chosen uniformly (every facet gets its share of rays)
+                    hc = ConvexHull(Pc)
+                    b = Pc[hc.simplices[rng.randrange(len(hc.simplices))]].mean(axis=0) * rng.choice([0.5, 1.0, 2.0])
                 if not np.any(b):
                     continue
                 cases.append({"op": "alpha", "eqs": eqs.tolist(), "b": b.tolist(), "d": d, "kind": "alpha/%dd/%s" % (d, kind)})
-        return cases
+        return cases[:n]
 
     def run_impl(self, case):
         import dreye
